@@ -222,6 +222,11 @@ fn expand_args_in_tokens(tokens: &mut types::Tokens, args: &[String]) {
     }
 }
 
+/// `set -e`: the last command run so far failed while exit-on-error is on.
+fn exit_requested(sh: &shell::Shell, cr_list: &[CommandResult]) -> bool {
+    sh.exit_on_error && cr_list.last().map_or(false, |cr| cr.status != 0)
+}
+
 fn run_exp_test_br(sh: &mut shell::Shell,
                    pair_br: Pair<parsers::locust::Rule>,
                    args: &Vec<String>,
@@ -367,7 +372,7 @@ fn run_exp_for(sh: &mut shell::Shell,
                 let (mut _cr_list, _cont, _brk) = run_exp(
                     sh, pair.clone(), args, true, capture);
                 cr_list.append(&mut _cr_list);
-                if _brk {
+                if _brk || exit_requested(sh, &cr_list) {
                     break;
                 }
             }
@@ -384,7 +389,7 @@ fn run_exp_while(sh: &mut shell::Shell,
     loop {
         let (mut _cr_list, passed, _cont, _brk) = run_exp_test_br(sh, pair_while.clone(), args, true, capture);
         cr_list.append(&mut _cr_list);
-        if !passed || _brk {
+        if !passed || _brk || exit_requested(sh, &cr_list) {
             break;
         }
     }
@@ -435,6 +440,9 @@ fn run_exp(sh: &mut shell::Shell,
         } else if rule == parsers::locust::Rule::EXP_IF {
             let (mut _cr_list, _cont, _brk) = run_exp_if(sh, pair, args, in_loop, capture);
             cr_list.append(&mut _cr_list);
+            if exit_requested(sh, &cr_list) {
+                return (cr_list, false, false);
+            }
             if _cont {
                 return (cr_list, true, false);
             }
@@ -444,9 +452,15 @@ fn run_exp(sh: &mut shell::Shell,
         } else if rule == parsers::locust::Rule::EXP_FOR {
             let mut _cr_list = run_exp_for(sh, pair, args, capture);
             cr_list.append(&mut _cr_list);
+            if exit_requested(sh, &cr_list) {
+                return (cr_list, false, false);
+            }
         } else if rule == parsers::locust::Rule::EXP_WHILE {
             let mut _cr_list = run_exp_while(sh, pair, args, capture);
             cr_list.append(&mut _cr_list);
+            if exit_requested(sh, &cr_list) {
+                return (cr_list, false, false);
+            }
         }
     }
     (cr_list, false, false)
